@@ -28,7 +28,63 @@ item!(t10, r10, (unsafe extern "C"), (a: i32), (), { let _ = a; }, { let _ = a; 
 item!(t11, r11, (), (a: i32), bool, a > 0, a > 1);
 item!(t12, r12, (), (a: i32), u32, a as u32 + 1, a as u32 + 2);
 
+// ---- C10 gate family: real types whose names do / do not have `bool` as top-level return type ----
+#[inline(never)] fn b0() -> bool { std::hint::black_box(true) }
+#[inline(never)] fn b1(a: i32) -> bool { std::hint::black_box(a > 0) }
+#[inline(never)] unsafe extern "C" fn b2(a: i32) -> bool { std::hint::black_box(a > 0) }
+#[inline(never)] fn b3(f: fn() -> bool) -> bool { std::hint::black_box(f()) }
+#[inline(never)] fn b4(s: &str) -> bool { std::hint::black_box(s.is_empty()) }
+#[inline(never)] fn n0() -> u8 { std::hint::black_box(1) }
+#[inline(never)] fn n1() { std::hint::black_box(()); }
+#[inline(never)] fn n2() -> fn() -> bool { std::hint::black_box(b0) }
+#[inline(never)] fn n3(f: fn() -> bool) { let _ = std::hint::black_box(f); }
+static DYN_TRUE: fn() -> bool = b0;
+#[inline(never)] fn n4() -> &'static dyn Fn() -> bool { std::hint::black_box(&DYN_TRUE) }
+#[inline(never)] fn n5(_x: u8) -> *const dyn FnMut(u8) -> bool { std::hint::black_box(std::ptr::null::<fn(u8) -> bool>() as *const dyn FnMut(u8) -> bool) }
+#[inline(never)] fn n6() -> Box<dyn Fn() -> bool> { std::hint::black_box(Box::new(|| true)) }
+#[inline(never)] fn n7() -> Option<bool> { std::hint::black_box(Some(true)) }
+#[inline(never)] fn n8() -> (bool,) { std::hint::black_box((true,)) }
+
+fn bool_gate_family() -> (usize, usize) {
+    type Mk = fn() -> FuncPtr;
+    let fam: Vec<(&str, Mk, bool)> = vec![
+        ("fn() -> bool", || injectorpp::func!(b0, fn() -> bool), true),
+        ("fn(i32) -> bool", || injectorpp::func!(b1, fn(i32) -> bool), true),
+        ("unsafe extern \"C\" fn(i32) -> bool", || injectorpp::func!(b2, unsafe extern "C" fn(i32) -> bool), true),
+        ("fn(fn() -> bool) -> bool", || injectorpp::func!(b3, fn(fn() -> bool) -> bool), true),
+        ("fn(&str) -> bool", || injectorpp::func!(b4, fn(&str) -> bool), true),
+        ("fn() -> u8", || injectorpp::func!(n0, fn() -> u8), false),
+        ("fn()", || injectorpp::func!(n1, fn()), false),
+        ("fn() -> fn() -> bool", || injectorpp::func!(n2, fn() -> fn() -> bool), false),
+        ("fn(fn() -> bool)", || injectorpp::func!(n3, fn(fn() -> bool)), false),
+        ("fn() -> &dyn Fn() -> bool", || injectorpp::func!(n4, fn() -> &'static dyn Fn() -> bool), false),
+        ("fn(u8) -> *const dyn FnMut(u8) -> bool", || injectorpp::func!(n5, fn(u8) -> *const dyn FnMut(u8) -> bool), false),
+        ("fn() -> Box<dyn Fn() -> bool>", || injectorpp::func!(n6, fn() -> Box<dyn Fn() -> bool>), false),
+        ("fn() -> Option<bool>", || injectorpp::func!(n7, fn() -> Option<bool>), false),
+        ("fn() -> (bool,)", || injectorpp::func!(n8, fn() -> (bool,)), false),
+    ];
+    let (mut n, mut bad) = (0, 0);
+    for (name, mk, want) in fam.iter() {
+        n += 1;
+        let r = catch_unwind(AssertUnwindSafe(|| {
+            let mut inj = InjectorPP::new();
+            inj.when_called(mk()).will_return_boolean(true);
+        }));
+        if r.is_ok() != *want {
+            bad += 1;
+            println!("BOOLFAIL will_return_boolean {} a target of type `{name}`", if r.is_ok() { "ACCEPTED" } else { "REFUSED" });
+        }
+    }
+    (n, bad)
+}
+
 fn main() {
+    if std::env::args().nth(1).as_deref() == Some("bool") {
+        std::panic::set_hook(Box::new(|_| {}));
+        let (n, bad) = bool_gate_family();
+        println!("BOOLSUMMARY types={n} failures={bad}");
+        std::process::exit(if bad == 0 { 0 } else { 3 });
+    }
     type Mk = fn() -> FuncPtr;
     let targets: Vec<(&str, Mk, Mk)> = vec![
         ("fn()", || injectorpp::func!(t0, fn()), || injectorpp::func!(r0, fn())),
